@@ -1,13 +1,17 @@
-// C09 end-to-end engine (thorough tier): a real exporter built with the public DogStatsDBuilder API against a
+// C09 end-to-end engine (both tiers): a real exporter built with the public DogStatsDBuilder API against a
 // harness UnixListener (unix:// = length-prefixed stream), a few metrics emitted over several flush intervals,
 // everything received on the socket printed as one hex string.
 //
 // stdin, one scenario per line:  <max|-> <+prefix hex|-> <telemetry 0|1> <aggressive 0|1> <cycles> <interval ms>
+//                                 [<metrics|-> [<dist 0|1>]]      metrics: c:<name hex>,g:<name hex>,h:<name hex>,...
+// All scenarios of one invocation run concurrently (one thread each); output lines are in input order.
 // stdout per scenario:           <hex of the byte stream received> (`-` if empty), or `ERR:<what>`
 // A line `B a:<addr hex> m:<n> ...` instead applies with_remote_address / with_maximum_payload_length in order and
 // then calls the real build(): prints `ok`, `err` (build() refused) or `early` (a setter refused).
-// Metrics emitted every cycle through the exporter's recorder: counter `reqs` (+3), counter with a long name
-// (rejected for small maxima), gauge `temp{room=a}`, histogram `lat` with 40 values.
+// Metrics emitted every cycle through the exporter's recorder. Without a metrics field: counter `reqs` (+3), counter
+// with a long name (rejected for small maxima), gauge `temp{room=a}`, histogram `lat` with 40 values. With one: every
+// listed counter +3, gauge set, histogram 6 values, under exactly the given names (the check draws them in relation
+// to the global prefix).
 use metrics::{Key, Label, Level, Metadata, Recorder};
 use metrics_exporter_dogstatsd::{AggregationMode, DogStatsDBuilder};
 use std::io::{BufRead, Read, Write as _};
@@ -16,6 +20,18 @@ use std::time::{Duration, Instant};
 
 fn unhex(s: &str) -> Vec<u8> {
     (0..s.len() / 2).map(|i| u8::from_str_radix(&s[2 * i..2 * i + 2], 16).unwrap()).collect()
+}
+
+fn on_frame_boundary(buf: &[u8]) -> bool {
+    let mut pos = 0usize;
+    while pos < buf.len() {
+        if pos + 4 > buf.len() {
+            return false;
+        }
+        let n = u32::from_le_bytes([buf[pos], buf[pos + 1], buf[pos + 2], buf[pos + 3]]) as usize;
+        pos += 4 + n;
+    }
+    pos == buf.len()
 }
 
 fn build_only(line: &str) -> String {
@@ -58,7 +74,7 @@ fn scenario(line: &str, n: usize) -> String {
         .with_telemetry(f[2] == "1")
         .with_aggregation_mode(if f[3] == "1" { AggregationMode::Aggressive } else { AggregationMode::Conservative })
         .with_global_labels(vec![Label::new("env", "e2e")])
-        .send_histograms_as_distributions(false);
+        .send_histograms_as_distributions(f.len() > 7 && f[7] == "1");
     if f[0] != "-" {
         b = match b.with_maximum_payload_length(f[0].parse().unwrap()) {
             Ok(b) => b,
@@ -89,38 +105,68 @@ fn scenario(line: &str, n: usize) -> String {
         stream.set_nonblocking(false).unwrap();
         stream.set_read_timeout(Some(Duration::from_millis(20))).unwrap();
         let mut chunk = [0u8; 65536];
-        // read until the deadline, then until the socket has been quiet for one read timeout (frames are written
-        // with one write_all each, so the stream is not cut inside a frame)
+        // read until the deadline, then stop as soon as the bytes received end on a frame boundary (the exporter
+        // keeps flushing gauges forever, so the socket never goes quiet; frames are written with one write_all each)
+        let hard = deadline + Duration::from_millis(500);
         loop {
             match stream.read(&mut chunk) {
                 Ok(0) => break,
                 Ok(k) => buf.extend_from_slice(&chunk[..k]),
-                Err(_) => {
-                    if Instant::now() >= deadline {
-                        break;
-                    }
-                }
+                Err(_) => {}
+            }
+            let now = Instant::now();
+            if now >= hard || (now >= deadline && on_frame_boundary(&buf)) {
+                break;
             }
         }
         buf
     });
 
     static META: Metadata<'static> = Metadata::new("c09e2e", Level::INFO, None);
-    let c = recorder.register_counter(&Key::from_name("reqs"), &META);
-    let long = recorder.register_counter(
-        &Key::from_name("a_counter_with_a_name_that_is_much_longer_than_the_small_payload_limits_used_here"),
-        &META,
-    );
-    let g = recorder.register_gauge(&Key::from_parts("temp", vec![Label::new("room", "a")]), &META);
-    let h = recorder.register_histogram(&Key::from_name("lat"), &META);
-    for cyc in 0..cycles {
-        c.increment(3);
-        long.increment(1);
-        g.set(20.5 + cyc as f64);
-        for i in 0..40 {
-            h.record(0.25 * (i as f64) + cyc as f64);
+    if f.len() > 6 && f[6] != "-" {
+        let mut cs = Vec::new();
+        let mut gs = Vec::new();
+        let mut hs = Vec::new();
+        for tok in f[6].split(',') {
+            let (k, v) = tok.split_once(':').unwrap();
+            let key = Key::from_name(String::from_utf8(unhex(v)).unwrap());
+            match k {
+                "c" => cs.push(recorder.register_counter(&key, &META)),
+                "g" => gs.push(recorder.register_gauge(&key, &META)),
+                _ => hs.push(recorder.register_histogram(&key, &META)),
+            }
         }
-        std::thread::sleep(interval);
+        for cyc in 0..cycles {
+            for c in &cs {
+                c.increment(3);
+            }
+            for g in &gs {
+                g.set(20.5 + cyc as f64);
+            }
+            for h in &hs {
+                for i in 0..6 {
+                    h.record(0.25 * (i as f64) + cyc as f64);
+                }
+            }
+            std::thread::sleep(interval);
+        }
+    } else {
+        let c = recorder.register_counter(&Key::from_name("reqs"), &META);
+        let long = recorder.register_counter(
+            &Key::from_name("a_counter_with_a_name_that_is_much_longer_than_the_small_payload_limits_used_here"),
+            &META,
+        );
+        let g = recorder.register_gauge(&Key::from_parts("temp", vec![Label::new("room", "a")]), &META);
+        let h = recorder.register_histogram(&Key::from_name("lat"), &META);
+        for cyc in 0..cycles {
+            c.increment(3);
+            long.increment(1);
+            g.set(20.5 + cyc as f64);
+            for i in 0..40 {
+                h.record(0.25 * (i as f64) + cyc as f64);
+            }
+            std::thread::sleep(interval);
+        }
     }
     let buf = reader.join().unwrap();
     let _ = std::fs::remove_dir_all(&dir);
@@ -136,13 +182,16 @@ fn scenario(line: &str, n: usize) -> String {
 
 fn main() {
     let stdin = std::io::stdin();
+    let lines: Vec<String> =
+        stdin.lock().lines().map(|l| l.unwrap()).filter(|l| !l.trim().is_empty()).collect();
+    let handles: Vec<_> = lines
+        .into_iter()
+        .enumerate()
+        .map(|(n, line)| std::thread::spawn(move || scenario(&line, n)))
+        .collect();
     let stdout = std::io::stdout();
     let mut w = stdout.lock();
-    for (n, line) in stdin.lock().lines().enumerate() {
-        let line = line.unwrap();
-        if line.trim().is_empty() {
-            continue;
-        }
-        writeln!(w, "{}", scenario(&line, n)).unwrap();
+    for h in handles {
+        writeln!(w, "{}", h.join().unwrap()).unwrap();
     }
 }
